@@ -360,3 +360,50 @@ def diff_desc(got, want, path=""):
     if same_value(got, want):
         return []
     return ["~%s:%s" % (path.rstrip("."), type(got).__name__)]
+
+
+def c05_caller(version, routes, ops, timeout, res):
+    """reply-receiving half of C05: call() hands back only results that satisfy the response schema of the
+    action it sent (unless that call skipped validation)"""
+    from harness import verdict as V
+    bad = []
+    for o in ops:
+        if o[0] != "start":
+            continue
+        _, k, uid, action, snake, skip, suppress, send_ok = o
+        oc = res["outcomes"].get(k) or res["outcomes"].get(str(k))
+        if oc is not None and oc[0] == "exc" and not skip and oc[1] not in ("UnknownCallErrorCodeError",):
+            bad.append(("reply-crash:%s:%s:%s" % (version, action, oc[1]),
+                        "call(%s) without skip ended with %s instead of a result or an OCPP error (a reply that does "
+                        "not satisfy the %s response schema must be answered with the mapped OCPP error)" % (action, oc[1], action)))
+        if oc is None or oc[0] != "result" or skip:
+            continue
+        ind = V.independent_verdict(version, "CallResult", action, _camel(json.loads(json.dumps(oc[1], default=float))))
+        if ind is False:
+            bad.append(("invalid-result-returned:%s:%s" % (version, action),
+                        "call(%s) returned %r, which violates the %s response schema" % (action, oc[1], action)))
+    return bad
+
+
+def c16_outbound(version, routes, ops, timeout, res):
+    """per-call scope of skip_schema_validation: a call that did not skip never writes an invalid request,
+    whatever the routes of the endpoint say"""
+    from harness import verdict as V
+    from ocpp.charge_point import remove_nones, snake_to_camel_case
+    bad = []
+    ids = _caller_ids(ops)
+    written = [json.loads(m) for (t, m) in res["writes"]]
+    for o in ops:
+        if o[0] != "start" or o[5]:
+            continue
+        _, k, uid, action, snake, skip, suppress, send_ok = o
+        wire = remove_nones(snake_to_camel_case(snake))
+        if V.independent_verdict(version, "Call", action, wire) is False:
+            hit = [fr for fr in written if isinstance(fr, list) and len(fr) == 4 and fr[0] == 2 and jkey(fr[1]) == jkey(ids[k])
+                   and fr[2] == action and same_value(fr[3], wire)]
+            if hit:
+                skipping = [r["action"] for r in routes if r.get("skip")]
+                bad.append(("invalid-call-written:%s:%s" % (version, action),
+                            "a %s request that violates its schema was written although this call did not skip validation "
+                            "(routes skipping validation on this endpoint: %r)" % (action, skipping)))
+    return bad
